@@ -33,9 +33,17 @@ BodyB(n, bs) == IF \E b \in bs : n = b - 1 THEN <<"ret", <<>> >>
 MkA(len, bs) == [n \in 1..len |-> Ins(Addr(n), BodyA(n, bs)[1], BodyA(n, bs)[2])]
 MkB(len, bs) == [n \in 1..len |-> Ins(Addr(n), BodyB(n, bs)[1], BodyB(n, bs)[2])]
 BoundSeq == SetToSeq(Bounds)
-ListingsA == <<MkA(Len_, Bounds)>> \o [k \in DOMAIN BoundSeq |-> MkA(BoundSeq[k] + 24, {BoundSeq[k]})]
 ListingsB == <<MkB(Len_, Bounds)>> \o [k \in DOMAIN BoundSeq |-> MkB(BoundSeq[k] + 24, {BoundSeq[k]})]
-PatternsA == << PAnd(<<I("push"), I("mov")>>), PAnd(<<PIns("push", <<OLit("rbp")>>), PIns("mov", <<OLit("rsp")>>)>>) >>
+\* a run of R identical operand-less instructions between a push and a ret (padding, a NOP sled): every one of
+\* them is an instruction of the listing, so a pattern that spells out R - 1 or R + 1 of them does not occur
+RunLen == 40
+RunBody(n) == IF n = 1 THEN <<"push", <<"%rbp">> >> ELSE IF n = RunLen + 2 THEN <<"ret", <<>> >> ELSE <<"nop", <<>> >>
+RunListing == [n \in 1..(RunLen + 2) |-> Ins(Addr(n), RunBody(n)[1], RunBody(n)[2])]
+Nops(k) == [n \in 1..k |-> I("nop")]
+RunPatterns == << PAnd(<<I("push")>> \o Nops(RunLen - 1) \o <<I("ret")>>), PAnd(<<I("push")>> \o Nops(RunLen) \o <<I("ret")>>),
+                  PAnd(<<I("push")>> \o Nops(RunLen + 1) \o <<I("ret")>>), PAnd(Nops(RunLen) \o <<I("ret")>>) >>
+ListingsA == <<RunListing, MkA(Len_, Bounds)>> \o [k \in DOMAIN BoundSeq |-> MkA(BoundSeq[k] + 24, {BoundSeq[k]})]
+PatternsA == RunPatterns \o << PAnd(<<I("push"), I("mov")>>), PAnd(<<PIns("push", <<OLit("rbp")>>), PIns("mov", <<OLit("rsp")>>)>>) >>
 PatternsB == << PAnd(<<I("ret"), PInsT("nop", <<>>, 1, 4)>>), PAnd(<<I("ret"), I("nop"), PInsT("nop", <<>>, 0, 3)>>) >>
 Universe == [a |-> [patterns |-> PatternsA, listings |-> ListingsA],
              b |-> [patterns |-> PatternsB, listings |-> ListingsB]]
